@@ -59,3 +59,6 @@ package retry
 //@   ensures [C17:attempts-bounded] policyMax(policy) >= 0 ==> trips(req) <= old(trips(req)) + policyMax(policy) + 1
 //@   ensures [C17:one-shot-not-resent] old(req.Body) != nil && old(req.GetBody) == nil ==> trips(req) <= old(trips(req)) + 1
 //@   ensures [C17:no-trip-after-cancel] recvd(ctxDone(ctx)) ==> result0 == nil && result1 != nil
+//@
+//@ func ExponentialBackoff$1
+//@   serves C17
